@@ -593,6 +593,85 @@ func creatorScripted(r *ev.Run, cfg stackCfg) (int, int) {
 }
 
 // ---------------------------------------------------------------------
+// NewCleanBuildDirectoryCreator over a base creator that can fail (in the
+// stack wired by bb_worker its base, the root creator, never does).
+
+type failingCreator struct {
+	base   builder.BuildDirectoryCreator
+	failAt int
+	calls  atomic.Int64
+}
+
+func (c *failingCreator) GetBuildDirectory(ctx context.Context, d *digest.Digest) (builder.BuildDirectory, *path.Trace, error) {
+	if int(c.calls.Add(1))-1 == c.failAt {
+		return nil, nil, status.Error(codes.Internal, "scripted failure of the base creator")
+	}
+	return c.base.GetBuildDirectory(ctx, d)
+}
+
+type failingBaseCfg struct {
+	Case   int  `json:"case"`
+	Calls  int  `json:"calls"`
+	FailAt int  `json:"fail_at"`
+	Holder bool `json:"holder"`
+}
+
+func cleanCreatorOverFailingBase(r *ev.Run, cfg failingBaseCfg) {
+	r.Case("clean-creator-over-failing-base %+v", cfg)
+	dir, err := os.MkdirTemp("", "verif-c12-")
+	if err != nil {
+		r.Inconclusive("cannot set up temp dir: %v", err)
+		return
+	}
+	defer os.RemoveAll(dir)
+	naive, closer, err := wexec.NewNaiveRoot(dir, wexec.NewCAS())
+	if err != nil {
+		r.Inconclusive("cannot open temp dir: %v", err)
+		return
+	}
+	defer closer.Close()
+	m := newMonitor(r, cfg, func(idx int) cleanPlan { return cleanPlan{Yields: idx % 3} })
+	inv := cleaner.NewIdleInvoker(m.clean)
+	creator := builder.NewCleanBuildDirectoryCreator(&failingCreator{base: builder.NewRootBuildDirectoryCreator(naive), failAt: cfg.FailAt}, inv)
+	ctx := context.Background()
+	var holder builder.BuildDirectory
+	if cfg.Holder {
+		if holder, _, err = creator.GetBuildDirectory(ctx, nil); err == nil {
+			m.enterUse("holder")
+		} else {
+			holder = nil
+		}
+	}
+	for i := 0; i < cfg.Calls; i++ {
+		bd, _, err := creator.GetBuildDirectory(ctx, nil)
+		if err != nil {
+			r.Situation("base-creator-failure-under-clean-creator")
+			if holder == nil {
+				m.probeIdle(inv, "after-failed-base-creator")
+			}
+			continue
+		}
+		m.enterUse("action")
+		m.duringUse("action")
+		m.leaveUse()
+		if err := bd.Close(); err != nil {
+			m.violation("close-failed-without-any-failure", fmt.Sprintf("clean creator: %v", err))
+		}
+	}
+	if holder != nil {
+		before := m.calls.Load()
+		m.leaveUse()
+		holder.Close()
+		if m.calls.Load() != before+1 {
+			m.violation("no-clean-when-last-action-ended", fmt.Sprintf("closing the last build directory invoked the cleaner %d times: a failed creation left the invoker acquired (or released it twice)", m.calls.Load()-before))
+		}
+	}
+	m.probeIdle(inv, "clean-creator-end")
+	r.Count("cleaner_calls", int(m.calls.Load()))
+	r.Hash(ev.HashOf("failing-base", cfg.Calls, cfg.FailAt, cfg.Holder, m.calls.Load()), cfg.FailAt < cfg.Calls+1)
+}
+
+// ---------------------------------------------------------------------
 // LocalBuildExecutor on top of the monitored creator stack.
 
 type execCfg struct {
